@@ -28,7 +28,7 @@
 
 static Boolean DoFilter;
 static int     FilterCnt;
-static Byte    FilterBytes[100];
+static Byte    FilterBytes[256]; /* distinct header IDs: never more than this */
 
 Word        FileID  = 0x1489;   /* Dateiheader Eingabedateien */
 char const* OutName = "STDOUT"; /* Pseudoname Output */
